@@ -19,8 +19,10 @@ SPEC = os.path.join(tlc.SPEC_DIR, 'MetaTile.tla')
 BG = (255, 255, 255)
 
 
-def make_painter(g, supports_meta):
-    from mapproxy.layer import MapLayer, MapExtent
+def make_painter(g, supports_meta, holes=None):
+    """holes: (grid, set of tile coordinates) for which the source has no picture (BlankImage), as a tile source with a
+    coverage has for tiles beyond its border"""
+    from mapproxy.layer import MapLayer, MapExtent, BlankImage
     from mapproxy.image import ImageSource
     from mapproxy.image.opts import ImageOptions
     from mapproxy.srs import SRS
@@ -39,6 +41,11 @@ def make_painter(g, supports_meta):
             bx0, by0, bx1, by1 = query.bbox
             w, h = query.size
             self.log.append((tuple(query.bbox), tuple(query.size)))
+            if holes is not None:
+                hgrid, hset = holes
+                for u in hset:
+                    if all(abs(a - b) < 1e-6 for a, b in zip(hgrid.tile_bbox(u), query.bbox)):
+                        raise BlankImage()
             rx, ry = (bx1 - bx0) / float(w), (by1 - by0) / float(h)
             lres = min(g['res'], key=lambda r: abs(r - rx))
             img = Image.new('RGB', (w, h))
@@ -100,7 +107,7 @@ def make_cache():
     return RecCache()
 
 
-def manager(grid, g, strategy, ms, buf):
+def manager(grid, g, strategy, ms, buf, holes=None):
     from mapproxy.cache.tile import TileManager
     from mapproxy.cache.dummy import DummyLocker
     from mapproxy.image.opts import ImageOptions
@@ -109,8 +116,8 @@ def manager(grid, g, strategy, ms, buf):
     if strategy == 'single':
         src = make_painter(g, True)
         m = TileManager(grid, cache, [src], 'png', locker=DummyLocker(), image_opts=opts)
-    elif strategy == 'bulk':
-        src = make_painter(g, False)
+    elif strategy in ('bulk', 'bulkholes'):
+        src = make_painter(g, False, holes=(grid, set(holes)) if holes else None)
         m = TileManager(grid, cache, [src], 'png', locker=DummyLocker(), image_opts=opts, meta_size=list(ms), meta_buffer=0,
                         bulk_meta_tiles=True, concurrent_tile_creators=2)
     else:
@@ -174,8 +181,8 @@ def grid_size(g, l):
     return (max(-((-(w // r)) // g['tw']), 1), max(-((-(h // r)) // g['th']), 1))
 
 
-def run_strategy(grid, g, strategy, ms, buf, t, extra, meta_bbox=None):
-    m, cache, src = manager(grid, g, strategy, ms, buf)
+def run_strategy(grid, g, strategy, ms, buf, t, extra, meta_bbox=None, holes=None):
+    m, cache, src = manager(grid, g, strategy, ms, buf, holes=holes)
     req = [t] + list(extra)
     try:
         m.load_tile_coords(req)
@@ -190,6 +197,15 @@ def run_strategy(grid, g, strategy, ms, buf, t, extra, meta_bbox=None):
     o.update({'s': strategy, 'stored': [list(c) for c in (calls[0] if calls else [])], 'nstore': len(calls),
               'req': [list(x) for x in req]})
     # upstream requests that produced the stored batch: all requests unless other meta tiles were also created
+    if strategy == 'bulkholes':
+        o['holes'] = [list(u) for u in sorted(holes)]
+        # every other tile of the batch shows its own ground too; nothing is stored for a tile without picture
+        for u in (calls[0] if calls else []):
+            if u != t and u in cache.d:
+                ou = decode(g, u, cache.d[u])
+                if ou['foreign'] or ou['ex'] or ou['ey'] or ou['bg_inside']:
+                    o['foreign'] += 1
+        o['foreign'] += len([u for u in holes if u in cache.d])
     if strategy == 'concurrent':
         # a second meta tile is created in the same call: count the requests for THIS meta tile (its bbox)
         o['nreq'] = len([q for q in src.log if all(abs(a - b) < 1e-6 for a, b in zip(q[0], meta_bbox))])
@@ -232,11 +248,20 @@ def observe(name, g, ctx, n_cases):
             nb = [(t[0] + dx, t[1] + dy, t[2]) for dx, dy in ((1, 0), (0, 1), (-1, 0), (1, 1), (2, 0)) if 0 <= t[0] + dx < gx and 0 <= t[1] + dy < gy]
             if nb:
                 obs.append(run_strategy(grid, g, 'minimal', ms, buf, t, nb[:rng.randint(1, min(2, len(nb)))]))
-        elif k < 0.8:
+        elif k < 0.7:
             real_b = None
             obs.append(run_strategy(grid, g, 'bulk', ms, 0, t, []))
             if buf != 0:
                 obs[-1]['s'] = 'bulk'
+        elif k < 0.8:
+            # bulk creation with tiles the source has no picture for (checkerboard around t)
+            mt0 = MetaGrid(grid, meta_size=ms, meta_buffer=0).meta_tile(t)
+            holes = [u for u in mt0.tiles if u is not None and u != t and (u[0] + u[1]) % 2 != (t[0] + t[1]) % 2]
+            if holes:
+                obs.append(run_strategy(grid, g, 'bulkholes', ms, 0, t, [], holes=holes))
+                ctx.cov['bulk_with_blank_tiles'] = ctx.cov.get('bulk_with_blank_tiles', 0) + 1
+            else:
+                obs.append(run_strategy(grid, g, 'bulk', ms, 0, t, []))
         else:
             far = [(x, y, t[2]) for x in range(gx) for y in range(gy) if mg.main_tile((x, y, t[2])) != mg.main_tile(t)]
             obs.append(run_strategy(grid, g, 'concurrent', ms, buf, t, far[:1], meta_bbox=mt.bbox))
